@@ -66,8 +66,10 @@ func (w *WAL) ManageRetention(config WALRetentionConfig) (int, error) {
 	now := time.Now()
 
 	for _, filePath := range files {
-		// Skip the current file
-		if filePath == currentFile {
+		// Skip the current file - and every newer one (the names sort by
+		// creation time): if this WAL is just being rotated away, a newer file
+		// is the live log of its successor and must not be touched either
+		if currentFile != "" && filepath.Base(filePath) >= filepath.Base(currentFile) {
 			continue
 		}
 
